@@ -200,6 +200,11 @@ func Association[K comparable, V any](arguments ...any) col.AssociationLike[K, V
 	// Process the actual arguments.
 	var hasKey bool
 	for _, argument := range arguments {
+		if asNotation, isNotation := argument.(col.NotationLike); isNotation {
+			// A notation is never taken for a key or a value.
+			notation = asNotation
+			continue
+		}
 		var asKey, isKey = argument.(K)
 		var asValue, isValue = argument.(V)
 		switch {
